@@ -1,8 +1,9 @@
 """Fake transport, step-boundary hooks and crash/schedule control for the remote dataset loader (C18, C19).
 
 Nothing in /repo is modified: the harness replaces module globals of traffic_weaver.datasets._base for the
-duration of a `Sim` context (urlretrieve, time, np, pickle, os, TemporaryDirectory, _sha256, _fetch_remote)
-and restores them afterwards.  Every replaced object forwards to the real one; the wrappers only call
+duration of a `Sim` context (urlretrieve / urlopen, time, np, pickle, os, TemporaryDirectory, _sha256, sha256,
+_fetch_remote - those that exist) as well as urllib.request.urlretrieve / urlopen and hashlib.sha256, and restores
+them afterwards: the loader may fetch and verify in any of these ways.  Every replaced object forwards to the real one; the wrappers only call
 `sim.boundary(name)` before / after, which is where crashes are injected and schedules are interleaved."""
 import contextlib
 import gzip as gzip_mod
@@ -35,6 +36,10 @@ def parse_payload(data):
 
 def sha(data):
     return hashlib.sha256(data).hexdigest()
+
+
+class Unobservable(RuntimeError):
+    """the harness cannot observe / steer this implementation (exit 2, never a verdict)"""
 
 
 class NetworkDown(urllib.error.URLError):
@@ -86,7 +91,42 @@ class Sim:
         self.boundary("download:after")
         return filename, None
 
+    def _urlopen(self, req, *a, **k):
+        """urllib.request.urlopen stand-in: the scripted transport writes into a scratch file, the response serves it;
+        a transport that failed after writing part of the body raises its error when the written part has been read"""
+        url = getattr(req, "full_url", req)
+        self.calls.append(url)
+        self.boundary("download:before")
+        fd, tmp = tempfile.mkstemp(prefix="twv-resp-")
+        os.close(fd)
+        err = None
+        try:
+            try:
+                self.transport(url, tmp, self)
+            except Exception as e:  # noqa: BLE001
+                err = e
+            with open(tmp, "rb") as f:
+                data = f.read()
+        finally:
+            os.unlink(tmp)
+        if err is not None and not data:
+            raise err
+        return _FakeResponse(url, data, err, self)
+
+    def _sha_bytes(self, data):
+        """checksum override by content (C18's checksum table) for code that hashes with hashlib itself"""
+        if self.sha_override is None:
+            return None
+        fd, tmp = tempfile.mkstemp(prefix="twv-sha-")
+        try:
+            with os.fdopen(fd, "wb") as f:
+                f.write(data)
+            return self.sha_override(tmp, self)
+        finally:
+            os.unlink(tmp)
+
     def _sha256(self, path):
+        self.sha_consulted = getattr(self, "sha_consulted", 0) + 1
         if self.sha_override is not None:
             out = self.sha_override(path, self)
             if out is None:
@@ -105,11 +145,48 @@ class Sim:
     def __enter__(self):
         sim = self
         g = base.__dict__
-        for name in ("urlretrieve", "time", "np", "pickle", "os", "TemporaryDirectory", "_sha256", "_fetch_remote"):
-            self._saved[name] = g[name]
-        self._real_sha256 = g["_sha256"]
-        self._real_fetch_remote = g["_fetch_remote"]
-        real_os = g["os"]
+        import hashlib as _hashlib
+        import urllib.request as _ur
+        for name in ("urlretrieve", "urlopen", "time", "np", "pickle", "os", "TemporaryDirectory", "_sha256", "sha256",
+                     "_fetch_remote"):
+            if name in g:
+                self._saved[name] = g[name]
+        self._saved_mod = [(_ur, "urlretrieve", _ur.urlretrieve), (_ur, "urlopen", _ur.urlopen),
+                           (_hashlib, "sha256", _hashlib.sha256), (_hashlib, "new", _hashlib.new)]
+        real_new = _hashlib.new
+        self._real_sha256 = g.get("_sha256")
+        self._real_fetch_remote = g.get("_fetch_remote")
+        real_os = g.get("os", os)
+        real_sha = _hashlib.sha256
+        own_verify_boundary = "_sha256" not in g
+        self.sha_consulted = 0
+
+        class FakeSha:
+            """hashlib.sha256 stand-in: the real digest unless the checksum table knows the content"""
+            name, digest_size, block_size = "sha256", 32, 64
+
+            def __init__(self, data=b"", **kw):
+                self._h = real_sha(data)
+                self._buf = bytearray(data)
+
+            def update(self, b):
+                self._h.update(b)
+                self._buf += bytes(b)
+
+            def copy(self):
+                c = FakeSha()
+                c._h, c._buf = self._h.copy(), bytearray(self._buf)
+                return c
+
+            def hexdigest(self):
+                sim.sha_consulted += 1
+                out = sim._sha_bytes(bytes(self._buf)) or self._h.hexdigest()
+                if own_verify_boundary:
+                    sim.boundary("verify:after")
+                return out
+
+            def digest(self):
+                return bytes.fromhex(self.hexdigest())
 
         class NpProxy:
             def __getattr__(self, item):
@@ -146,6 +223,12 @@ class Sim:
                 real_os.rename(a, b, *aa, **k)
                 sim.boundary("rename:after")
 
+            @staticmethod
+            def replace(a, b, *aa, **k):          # the other way of publishing a file atomically
+                sim.boundary("rename:before")
+                real_os.replace(a, b, *aa, **k)
+                sim.boundary("rename:after")
+
         class TmpDir(tempfile.TemporaryDirectory):
             def __exit__(self, exc, value, tb):
                 sim.boundary("cleanup:before")
@@ -166,20 +249,82 @@ class Sim:
                 sim.boundary("cleanup:after")
                 return out
 
-        g["urlretrieve"] = self._urlretrieve
-        g["time"] = types.SimpleNamespace(sleep=lambda s: sim.boundary("retry:sleep"))
-        g["np"] = NpProxy()
-        g["pickle"] = PickleProxy()
-        g["os"] = OsProxy()
-        g["TemporaryDirectory"] = TmpDir
-        g["_sha256"] = self._sha256
-        g["_fetch_remote"] = self._fetch_remote
+        repl = dict(urlretrieve=self._urlretrieve, urlopen=self._urlopen,
+                    time=types.SimpleNamespace(sleep=lambda s: sim.boundary("retry:sleep"), time=__import__("time").time,
+                                               monotonic=__import__("time").monotonic),
+                    np=NpProxy(), pickle=PickleProxy(), os=OsProxy(), TemporaryDirectory=TmpDir, _sha256=self._sha256,
+                    sha256=FakeSha, _fetch_remote=self._fetch_remote)
+        for name in self._saved:
+            g[name] = repl[name]
+        _ur.urlretrieve, _ur.urlopen, _hashlib.sha256 = self._urlretrieve, self._urlopen, FakeSha
+
+        def fake_new(name, data=b"", **kw):
+            if str(name).lower().replace("-", "") == "sha256":
+                return FakeSha(data)
+            return real_new(name, data, **kw)
+        _hashlib.new = fake_new
         return self
 
     def __exit__(self, *exc):
         g = base.__dict__
         for name, val in self._saved.items():
             g[name] = val
+        for mod, name, val in self._saved_mod:
+            setattr(mod, name, val)
+        return False
+
+
+class _FakeResponse:
+    """what urlopen returns: file-like, context manager, headers with the announced length"""
+
+    def __init__(self, url, data, err, sim):
+        self.url, self._data, self._err, self._sim, self._pos = url, data, err, sim, 0
+        self.status = self.code = 200
+        announced = len(data) * 2 if err is not None else len(data)
+        self.headers = {"Content-Length": str(announced), "content-length": str(announced)}
+        self._done = False
+
+    def read(self, n=-1):
+        if self._pos >= len(self._data):
+            if self._err is not None:
+                err, self._err = self._err, None
+                raise err
+            if not self._done:
+                self._done = True
+                self._sim.boundary("download:after")
+            return b""
+        if n is None or n < 0:
+            n = len(self._data) - self._pos
+        out = self._data[self._pos:self._pos + n]
+        self._pos += len(out)
+        if (n is None or self._pos >= len(self._data)) and self._err is not None and out:
+            return out
+        return out
+
+    def readinto(self, b):
+        chunk = self.read(len(b))
+        b[:len(chunk)] = chunk
+        return len(chunk)
+
+    def info(self):
+        return self.headers
+
+    def getheader(self, name, default=None):
+        return self.headers.get(name, default)
+
+    def geturl(self):
+        return self.url
+
+    def close(self):
+        pass
+
+    def __iter__(self):
+        return iter(self._data.splitlines(keepends=True))
+
+    def __enter__(self):
+        return self
+
+    def __exit__(self, *a):
         return False
 
 
@@ -272,15 +417,40 @@ def gz(data, members=1):
     return buf.getvalue()
 
 
+def cache_files(path):
+    """the published cache entry of a dataset: the documented slot <folder>/<name>, or <name>.<ext> next to it (another
+    serialisation); files being written (.part / .tmp / .download ...) and sub-directories are not entries"""
+    d, name = os.path.dirname(path), os.path.basename(path)
+    out = []
+    if os.path.isdir(d):
+        for f in sorted(os.listdir(d)):
+            p = os.path.join(d, f)
+            if not os.path.isfile(p):
+                continue
+            if f == name or (f.startswith(name + ".") and not f.endswith((".part", ".tmp", ".temp", ".download", ".lock"))):
+                out.append(p)
+    return out
+
+
 def read_cache(path):
-    """Returns ('absent', None) | ('complete', ndarray) | ('corrupt', reason)"""
-    if not os.path.exists(path):
+    """File-level view of the cache entry: ('absent', None) | ('complete', ndarray) | ('corrupt', reason).
+    The pinned tree pickles the array; an entry that is a complete .npy file is understood as well."""
+    files = cache_files(path)
+    if not files:
         return "absent", None
-    try:
-        with open(path, "rb") as f:
-            obj = real_pickle.load(f)
-    except Exception as e:  # noqa: BLE001
-        return "corrupt", f"{type(e).__name__}: {e}"
-    if not isinstance(obj, real_np.ndarray):
-        return "corrupt", f"unpickles to {type(obj).__name__}"
-    return "complete", obj
+    reasons = []
+    for p in files:
+        try:
+            with open(p, "rb") as f:
+                obj = real_pickle.load(f)
+        except Exception as e:  # noqa: BLE001
+            try:
+                obj = real_np.load(p, allow_pickle=False)
+            except Exception:  # noqa: BLE001
+                reasons.append(f"{os.path.basename(p)}: {type(e).__name__}: {e}")
+                continue
+        if not isinstance(obj, real_np.ndarray):
+            reasons.append(f"{os.path.basename(p)} holds a {type(obj).__name__}")
+            continue
+        return "complete", obj
+    return "corrupt", "; ".join(reasons)
